@@ -4,6 +4,22 @@ import json
 import sys
 
 LEVEL_TEXT = {
+    'C04': ("Machine-checked on the model: a disconnected id becomes stale and stays stale after every further history (hence inactive through every handle "
+            "copy, for ever, and - by C01 - never invoked again), repeating the disconnect is a no-op, exactly that table entry and its queued deferred "
+            "invocations go while all other connections are untouched, disconnectAll/destruction/overwrite empty the table and kill the Impl. Release of the "
+            "callable itself is observed: the harness compares the set of labels whose tracked callable is still alive after every call.", '6/C04'),
+    'C05': ("Machine-checked on the model: an unblocked deferred connection contributes exactly one queued invocation and no call to an emission; a pass runs "
+            "the queue once, in order, with the stored values, and leaves it empty; a second pass runs nothing; disconnect cancels exactly that connection's "
+            "entries; a nested evaluate is a no-op; with arbitrary re-entrant slots no evaluator is left evaluating. Tie: generated histories with slots that "
+            "emit / disconnect / evaluate inside passes, arguments destroyed right after emit (ASan).", '6/C05'),
+    'C15': ("Machine-checked on the model: block returns the previous setting and flips exactly one flag; blocked connections contribute nothing to an "
+            "emission; inactive handles are rejected with out_of_range and no change; for EVERY well-nested sequence of scoped blockers (on active or inactive "
+            "handles) all blocked settings and the blocker table are restored; blocker destruction is total. Tie: generated histories with nested blockers and "
+            "disconnects / signal destruction while blockers are alive.", '6/C15'),
+    'C19': ("Machine-checked bookkeeping: table size = live + reusable positions, grows only when none is reusable, erasing keeps the size, queues are empty "
+            "after a pass, a destroyed signal's table is empty, in every reachable world. Bytes are NOT modelled: the harness observes, after every call, the "
+            "set of tracked callables still alive (must equal the model's) and, after teardown, per-label instance counts (must be 0); ASan's leak checker runs "
+            "on every script.", '6/C19'),
     'C01': ("Machine-checked on the executable model of Signal::Impl: an emission with non-re-entrant slot bodies logs EXACTLY one invocation per connected, "
             "unblocked connection, in table order, with bound values followed by the leading emitted values the callable needs, and one queued invocation per "
             "deferred connection (C01_emit_exact); with arbitrary re-entrant bodies never twice (C01_at_most_once); connect/disconnect/block change exactly the "
